@@ -18,7 +18,12 @@ func CheckC04(run *evid.Run) {
 	opts := hx.GenOpts{MaxSteps: pick(run.Tier, 45, 80), Orders: []string{"default", "hash"}, Extra: true,
 		Shapes: []string{"lopsided", "mixed", "widefork", "diamond", "lopsided", "overlap", "twins", "ring"}}
 	parallel(nh, func(i int) {
-		h := hx.Gen(run.Seed, i, opts)
+		o2 := opts
+		o2.Failures = i%2 == 1
+		if i%5 == 2 {
+			o2.Shapes = []string{"manyheads"}
+		}
+		h := hx.Gen(run.Seed, i, o2)
 		x := hx.NewExec(h)
 		special := map[int]string{}
 		for k, s := range h.Steps {
@@ -34,6 +39,12 @@ func CheckC04(run *evid.Run) {
 				}
 				if s.Op == "reload" && res.Err != nil {
 					run.Violate("C04/reload-error", det("loader", s.Payload), wit(), "reload failed: %v", res.Err)
+				}
+				if s.ExpectsError() {
+					special[s.R] = "refused-" + s.Op
+				}
+				if s.Op == "fork" {
+					special[s.R] = "fork"
 				}
 				continue
 			}
@@ -103,10 +114,13 @@ func CheckC04(run *evid.Run) {
 			if len(e.Refs) > 0 {
 				run.Count("appends_with_refs", 1)
 			}
+			if len(before.Heads) > s.PC {
+				run.Count("appends_with_more_heads_than_pointer_count", 1)
+			}
 			if len(before.Heads) >= 2 || foreign || sp != "" {
 				hb := len(before.Heads)
 				if hb > 4 {
-					hb = 4
+					hb = 4 + hb/8
 				}
 				run.NonTrivial(fmt.Sprintf("h%d/n%d/pc%d/f%v/%s/r%d", hb, bucket(len(before.Set)), s.PC, foreign, sp, len(e.Refs)))
 				run.Count("nontrivial_appends", 1)
@@ -161,7 +175,9 @@ func CheckC05(run *evid.Run) {
 	run.Rule = "seeded histories under every codec configuration (default, link-encrypting, legacy protobuf); after every step ALL replicas are swept: each hash seen earlier on a replica must still be there with an identical content digest over every field (also through Get), Len never decreases, the previous value sequence is a subsequence of the new one (order only when the ordering is total on the new state, set inclusion always), and a global shadow hash->digest over all log instances detects in-place mutation of entries shared by pointer; non-trivial iff >=2 heads seen and a merge added entries; distinct = final DAG shape digest + codec"
 	opts := hx.GenOpts{MaxSteps: pick(run.Tier, 35, 70), Orders: []string{"default", "hash"}, Codecs: []string{"cbor", "link", "pb", "cbor"}}
 	parallel(nh, func(i int) {
-		h := hx.Gen(run.Seed, i, opts)
+		o2 := opts
+		o2.Failures = i%2 == 1
+		h := hx.Gen(run.Seed, i, o2)
 		x := hx.NewExec(h)
 		shadow := map[string]string{}
 		prev := make([]*hx.Obs, h.Replicas)
@@ -171,11 +187,22 @@ func CheckC05(run *evid.Run) {
 			res := x.Do(k)
 			where := fmt.Sprintf("step %d %s", k, s)
 			wit := func() map[string]any { m := histSample(h); m["at"] = where; return m }
-			if res.Err != nil {
+			if res.Err != nil && !s.ExpectsError() {
 				run.Violate("C05/op-error", det("op", s.Op, "codec", h.Codec), wit(), "honest %s failed under codec %s: %v", s.Op, h.Codec, res.Err)
+			}
+			if s.ExpectsError() {
+				run.Count("refused_operations", 1)
+			}
+			if s.Op == "fork" {
+				// the forked replica starts a new life; what it held before is not its past
+				prev[s.R] = nil
+				run.Count("forks", 1)
 			}
 			for r, l := range x.Logs {
 				o := hx.Observe(l)
+				if o.NilEntries > 0 {
+					run.Violate("C05/entry-lost-from-index", det("codec", h.Codec, "op", s.Op), wit(), "r%d hands out %d nil entries after %s (an entry of this instance was overwritten)", r, o.NilEntries, where)
+				}
 				if r == s.R {
 					tr.seeObs(o)
 					if s.Op == "join" && o.Len > lenBefore {
@@ -208,6 +235,9 @@ func CheckC05(run *evid.Run) {
 				}
 				// Get(hash) for entries of the previous observation
 				for _, e := range l.GetEntries().Slice() {
+					if e == nil {
+						continue
+					}
 					g, ok := l.Get(e.GetHash())
 					if !ok || hx.ContentDigest(g) != shadow[e.GetHash().String()] {
 						run.Violate("C05/get", det("codec", h.Codec), wit(), "Get(%s) on r%d missing or different at %s", hx.Short(e.GetHash().String()), r, where)
